@@ -223,8 +223,13 @@ def run(ctx):
             if cn == LOOKUP:
                 n += 1
                 ok = is_param_path(at[0], 1, ['file', 'framedata']) and is_param_path(at[1], 1, ['cel_id'])
-                ctx.inst('R4', name, ok, 'looks up framedata.cel(%s, %s); must be (self.file.framedata, self.cel_id)'
-                         % (show(at[0]), show(at[1])), c.span, key=ctx.key(name, 'R4', 'lookup', ''))
+                if not ok and fn not in ('raw_cel', 'image'):
+                    # for agreement of the routes it is enough that the looked-up id is a function of the handle alone
+                    # (which cel a linked cel reports for, say, user data is C10's business, not C19's)
+                    ok = is_param_path(at[0], 1, ['file', 'framedata']) and all(x[1] == 1 for x in walk(at[1]) if is_param(x)) and \
+                        not any(x[0] in ('static', 'unknown') for x in walk(at[1]))
+                ctx.inst('R4', name, ok, 'looks up framedata.cel(%s, %s); must be (self.file.framedata, self.cel_id) (or, for the data accessors, an id derived from self only)'
+                         % (show(at[0]), show(at[1])[:120]), c.span, key=ctx.key(name, 'R4', 'lookup', ''))
             elif cn == 'asefile::cel::Cel::raw_cel':
                 n += 1
                 ctx.inst('R4', name, is_param(at[0], 1), 'raw_cel() receiver is %s; must be self' % show(at[0]),
